@@ -37,6 +37,7 @@ LEVEL_NOTE = "The bound B is computed from the spec; observed makespans stay far
 
 CFG_STATUS = gen.Cfg(facilities=True, nested="assembly", max_time=list(range(0, 41)), kinds=[0, 0, 1, 2, 3])
 CFG_FEAS = gen.Cfg(
+    warm=4,
     facilities=False,
     kinds=[0, 1, 1, 2, 2, 3, 3],
     max_time=[0],
@@ -165,8 +166,9 @@ def check(case):
         opts["max_time"] = 30
     max_time = opts["max_time"]
 
-    h = S.build(spec)
+    h = S.warm_build(spec)
     p = h.project
+    res.cls("warm_" + str((spec.get("warm") or {}).get("mode")), bool(spec.get("warm")))
     seen = []
 
     def watch(project, phase):
